@@ -39,6 +39,7 @@ macro_rules! ubody {
     };
 }
 ubody!(c02u, "u_c02.rs");
+ubody!(c03u, "u_c03.rs");
 pub mod c01;
 pub mod c02;
 pub mod c04;
@@ -60,6 +61,7 @@ pub fn all() -> Vec<Scenario> {
     c01::register(&mut v);
     c02u::register(&mut v);
     c02::register(&mut v);
+    c03u::register(&mut v);
     c04::register(&mut v);
     c05::register(&mut v);
     c06::register(&mut v);
